@@ -77,15 +77,17 @@ def plan(tier, seed):
                         'misc': ['verbosity', 'version', 'subprocess',
                                  'docsync'][b % 4]})
         return out
-    nb = 60
+    # sized for ~2100 cases (~2500 CLI runs): every single option twice per
+    # ten batches (real and dry), four complete sets over the run
+    nb = 40
     out = []
     for b in range(nb):
         out.append({'id': f't{b}', 'k': 1000+b,
-                    'singles': singles[b % 20::20], 'single_rep': 2,
-                    'n_combo': 26, 'n_override': 8, 'n_unknown': 12,
-                    'n_seq': 6, 'n_known': 6,
+                    'singles': singles[b % 10::10], 'single_rep': 2,
+                    'n_combo': 14, 'n_override': 4, 'n_unknown': 7,
+                    'n_seq': 3, 'n_known': 4,
                     'misc': ['verbosity', 'version', 'subprocess',
-                             'docsync'][b % 4], 'n_sub': 3})
+                             'docsync'][b % 4], 'n_sub': 1})
     return out
 
 
@@ -1818,7 +1820,7 @@ def run_batch(batch):
 
 
 def finalize(merged, tier):
-    f = 1 if tier == 'quick' else 5
+    f = 1 if tier == 'quick' else 3
     common.require_events(merged, {
         'cli_runs_judged': 250*f, 'acceptance_checks': 230*f,
         'constructor_checks': 180*f, 'compute_checks': 120*f,
